@@ -43,6 +43,7 @@ ASSUMPTIONS = [
     "per-table dumps (tables=/skipTables=) are imported on top of the original font, as `ttx -m` does",
     "dumps are written into a scratch sub-directory named by an absolute path, by a relative path with a directory component, or by a bare file name in the current directory (the worker's cwd is moved for that option set and restored)",
     "hostile strings are limited to what the binary formats can carry and XML 1.0 can represent: glyph names get XML-special ASCII characters only (no blanks/commas: TTX uses them as list separators), name records / meta text / SVG documents get &, <, >, quotes, ]]>, non-BMP, tab/CR/LF and leading/trailing blanks",
+    "value perturbation (hostile kind 'perturb'): numeric fields of the loaded object model are replaced by type-preserving variants (integral-valued floats in CFF/CFF2 DICT arrays and blend lists, 0xFFFF-outer delta-set index map entries with inner 0/1/0xFFFE/0xFFFF, boundary integers and long-decimal fixed-point values in OpenType-layout-style tables, head/hhea/vhea/OS/2/post/maxp/hmtx/vmtx/cvt/fvar/VORG/gasp fields); the perturbed font is an input only if it compiles, loads completely and compiles again, otherwise a gentler perturbation level is used",
     "expat is the trusted XML parser for the escape post-condition; characters XML 1.0 cannot represent are documented as replaced by '?'",
 ]
 REQUIRED_MONITORS = ["TTFont.saveXML", "TTFont._tableToXML", "TTFont.importXML", "XMLReader._startElementHandler",
@@ -326,6 +327,23 @@ def cases(tier, seed):
                 [_opt(), _opt(split="tables", nl="CR"), _opt(nl="CRLF"), _opt(split="glyphs" if "glyf" in rec["tables"] else "tables")]
             out.append({"id": "hostile:%s:%s" % (kind, _fid(rec)), "kind": "hostile", "hostile": kind, "path": rec["path"],
                         "member": None, "seed": seed, "opts": opts})
+    # value perturbation before the TTX round trip: type-preserving variants of numeric fields in every
+    # table kind the font has (see _perturb)
+    special = [r for r in pool if any(t in r["tables"] for t in ("CFF2", "COLR", "HVAR", "VVAR", "avar", "MVAR", "STAT"))]
+    cffs = [r for r in pool if r["outlines"] == "CFF "]
+    others = [r for r in pool if r not in special]
+    chosen = rnd.sample(special, min(len(special), 60 if T else 14)) + rnd.sample(cffs, min(len(cffs), 40 if T else 10)) \
+        + rnd.sample(others, min(len(others), 80 if T else 12))
+    seen_p = set()
+    for rec in chosen:
+        if rec["path"] in seen_p:
+            continue
+        seen_p.add(rec["path"])
+        opts = [_opt(), _opt(split="tables", nl=rnd.choice(["CR", "CRLF"]))]
+        if T:
+            opts.append(_opt(via="cli"))
+        out.append({"id": "hostile:perturb:%s" % _fid(rec), "kind": "hostile", "hostile": "perturb", "path": rec["path"],
+                    "member": None, "seed": seed, "opts": opts})
     # glyph names that collide after file-name mangling (per-glyph split dumps write one file per
     # glyph): every way of naming the output file, API and CLI
     glyf = [r for r in pool if r["outlines"] == "glyf" and 6 <= r["numGlyphs"] <= 400]
@@ -529,6 +547,200 @@ def _hostile_ttprogram(src, rnd):
     return corpus.save_bytes(f), "ttprogram: fpgm, prep and %d glyph programs" % n
 
 
+# ------------------------------------------------------------------ value perturbation
+_OT_NUMERIC = {"Short", "UShort", "Int8", "UInt8", "Long", "ULong", "Fixed", "F2Dot14", "Angle", "BiasedAngle", "DeciPoints"}
+_OT_SKIP = re.compile(r"Count|Format|Index|Offset|Class|Flag|Type|Length|Size|Glyph|Version|Reserved|Tag|Range|Shift|"
+                      r"Selector|Start|End|First|Last|NameID|Ordering|Padding|Coverage|Lookup|Palette|Num|Entry", re.I)
+_OT_VARIANTS = {"Short": [-32768, 32767, -1, 1, 0, 255, -256], "UShort": [0, 1, 65535, 256, 32768],
+                "Int8": [-128, 127, 0], "UInt8": [0, 255, 1], "Long": [-2 ** 31, 2 ** 31 - 1, 70000], "ULong": [0, 2 ** 32 - 1, 70000],
+                "Fixed": [1.0, -0.5, 1.25, 32767.5, -32768.0, 100.0, 1 / 65536, 0.100006103515625],
+                "F2Dot14": [-2.0, 1.0, 0.5, 1 / 16384, 1.99993896484375, -0.75, 0.0],
+                "Angle": [0.0, 0.5, -1.0, 0.25], "BiasedAngle": [0.0, 0.5, -1.0, 0.25], "DeciPoints": [0.0, 9.5, 10.0, 72.0]}
+
+
+def _walk_ot(obj, seen, visit, depth=0):
+    from fontTools.ttLib.tables.otBase import BaseTable, ValueRecord
+
+    if id(obj) in seen or depth > 40:
+        return
+    seen.add(id(obj))
+    if isinstance(obj, (BaseTable, ValueRecord)):
+        visit(obj)
+        for v in list(vars(obj).values()):
+            _walk_ot(v, seen, visit, depth + 1)
+    elif isinstance(obj, (list, tuple)):
+        for v in obj:
+            _walk_ot(v, seen, visit, depth + 1)
+    elif isinstance(obj, dict):
+        for v in obj.values():
+            _walk_ot(v, seen, visit, depth + 1)
+
+
+def _perturb_ot(font, rnd, stats, numeric=True):
+    from fontTools.ttLib.tables import otTables
+    from fontTools.ttLib.tables.otBase import BaseTable, BaseTTXConverter, ValueRecord
+
+    budget = {"n": 0}
+
+    def visit(node):
+        # delta-set index maps: NO_VARIATION and 0xFFFF-outer entries with every kind of inner index
+        if isinstance(node, (otTables.DeltaSetIndexMap, otTables.VarIdxMap)):
+            m = getattr(node, "mapping", None)
+            keys = list(m.keys()) if isinstance(m, dict) else list(range(len(m or [])))
+            for k, inner in zip(rnd.sample(keys, min(len(keys), 4)), (1, 0, 0xFFFE, 0xFFFF)):
+                m[k] = (0xFFFF << 16) | inner
+                stats["index-map-entries"] += 1
+            return
+        if not numeric or budget["n"] >= 40:
+            return
+        if isinstance(node, ValueRecord):
+            for a in ("XPlacement", "YPlacement", "XAdvance", "YAdvance"):
+                if hasattr(node, a) and rnd.random() < 0.15:
+                    setattr(node, a, rnd.choice(_OT_VARIANTS["Short"]))
+                    budget["n"] += 1
+                    stats["ot-fields"] += 1
+            return
+        try:
+            convs = node.getConverters()
+        except Exception:
+            return
+        for conv in convs:
+            cls = type(conv).__name__
+            if cls not in _OT_NUMERIC or conv.repeat or getattr(conv, "isCount", False) or getattr(conv, "isPropagated", False) \
+                    or getattr(conv, "isLookupType", False) or _OT_SKIP.search(conv.name):
+                continue
+            v = getattr(node, conv.name, None)
+            if isinstance(v, (int, float)) and not isinstance(v, bool) and rnd.random() < 0.12:
+                setattr(node, conv.name, rnd.choice(_OT_VARIANTS[cls]))
+                budget["n"] += 1
+                stats["ot-fields"] += 1
+
+    for tag in font.keys():
+        t = font[tag] if tag != "GlyphOrder" else None
+        if isinstance(t, BaseTTXConverter) and hasattr(t, "table"):
+            budget["n"] = 0
+            _walk_ot(t.table, set(), visit)
+
+
+def _floaty(vals, rnd):
+    """same length, every element a float, at least one integral-valued and one fractional"""
+    if not vals:
+        return vals
+    if isinstance(vals[0], list):
+        return [_floaty(v, rnd) for v in vals]
+    out = [float(v) for v in vals]
+    out[0] = out[0] - 0.5
+    return out
+
+
+def _perturb_cff(font, rnd, stats):
+    for tag in ("CFF ", "CFF2"):
+        if tag not in font:
+            continue
+        td = font[tag].cff.topDictIndex[0]
+        privs = []
+        if hasattr(td, "FDArray"):
+            privs = [fd.Private for fd in td.FDArray if hasattr(fd, "Private")]
+        elif hasattr(td, "Private"):
+            privs = [td.Private]
+        for pr in privs:
+            for k in ("BlueValues", "OtherBlues", "FamilyBlues", "FamilyOtherBlues", "StemSnapH", "StemSnapV"):
+                v = pr.rawDict.get(k)
+                if isinstance(v, list) and v:
+                    setattr(pr, k, _floaty(v, rnd))
+                    stats["cff-array-floats"] += 1
+        if tag == "CFF ":
+            bb = td.rawDict.get("FontBBox")
+            if isinstance(bb, list) and len(bb) == 4:
+                td.FontBBox = [float(bb[0]) - 0.5, float(bb[1]), float(bb[2]), float(bb[3])]
+                stats["cff-array-floats"] += 1
+            td.FontMatrix = [0.0005, 0.0, 0.0, 0.0005, 0.0, 1.0]
+            stats["cff-array-floats"] += 1
+
+
+def _perturb_plain(font, rnd, stats):
+    def bump(obj, attr, choices):
+        if hasattr(obj, attr):
+            setattr(obj, attr, rnd.choice(choices))
+            stats["plain-fields"] += 1
+
+    if "head" in font:
+        h = font["head"]
+        bump(h, "fontRevision", [1.0, 2.5, 1.00299072265625, 0.5, 13.1199951171875])
+        bump(h, "lowestRecPPEM", [0, 6, 65535])
+        bump(h, "macStyle", [0, 1, 0x7F])
+        bump(h, "created", [3000000000 + rnd.randrange(10 ** 8), 2082844800, 2082844801])
+        bump(h, "fontDirectionHint", [-2, 0, 2])
+    for tag, fields in (("hhea", ["ascent", "descent", "lineGap", "caretSlopeRise", "caretSlopeRun", "caretOffset"]),
+                        ("vhea", ["ascent", "descent", "lineGap", "caretSlopeRise", "caretSlopeRun", "caretOffset"]),
+                        ("OS/2", ["xAvgCharWidth", "ySubscriptXOffset", "yStrikeoutPosition", "sTypoAscender", "sTypoDescender",
+                                  "sTypoLineGap", "sxHeight", "sCapHeight"])):
+        if tag in font:
+            for a in fields:
+                if rnd.random() < 0.5:
+                    bump(font[tag], a, [-32768, 32767, -1, 0, 1, 1234])
+    if "OS/2" in font:
+        for a in ("usWeightClass", "usWidthClass", "fsType", "usWinAscent", "usWinDescent", "usDefaultChar", "usBreakChar"):
+            if rnd.random() < 0.5:
+                bump(font["OS/2"], a, [0, 1, 65535, 400])
+    if "post" in font:
+        bump(font["post"], "italicAngle", [-12.5, 0.0, 1 / 65536, -0.100006103515625, 359.5])
+        bump(font["post"], "underlinePosition", [-32768, 32767, -75])
+        bump(font["post"], "isFixedPitch", [0, 1, 2 ** 32 - 1])
+    if "maxp" in font:
+        for a in ("maxZones", "maxTwilightPoints", "maxStorage", "maxFunctionDefs", "maxStackElements"):
+            bump(font["maxp"], a, [0, 1, 65535])
+    for tag in ("hmtx", "vmtx"):
+        if tag in font:
+            m = font[tag].metrics
+            for g in rnd.sample(sorted(m), min(len(m), 4)):
+                m[g] = (rnd.choice([0, 1, 65535, 1000]), rnd.choice([-32768, 32767, -1, 0]))
+                stats["plain-fields"] += 1
+    if "cvt " in font and len(font["cvt "].values):
+        v = font["cvt "].values
+        for i in rnd.sample(range(len(v)), min(len(v), 3)):
+            v[i] = rnd.choice([-32768, 32767, 0, -1])
+            stats["plain-fields"] += 1
+    if "fvar" in font:
+        for a in font["fvar"].axes:
+            a.minValue -= 0.25
+            a.maxValue += 0.1249847412109375
+            stats["plain-fields"] += 2
+    if "VORG" in font:
+        bump(font["VORG"], "defaultVertOriginY", [-32768, 32767, 880])
+    if "gasp" in font and getattr(font["gasp"], "gaspRange", None):
+        font["gasp"].gaspRange[65535] = rnd.choice([0, 1, 15])
+        stats["plain-fields"] += 1
+
+
+def _perturb(src, rnd, ctx):
+    """Replace numeric fields all over the object model by type-preserving variants (integral-valued
+    floats in CFF DICT arrays and blend lists, 0xFFFF-outer delta-set index map entries with every
+    inner index, boundary integers, fixed-point numbers with long decimal expansions), compile, and
+    require that the result loads and compiles again - otherwise retry with the gentler set."""
+    from collections import Counter
+
+    for level in ("all", "no-ot-numeric", "maps-and-cff"):
+        stats = Counter()
+        f = _load_model(src)
+        try:
+            _perturb_cff(f, rnd, stats)
+            _perturb_ot(f, rnd, stats, numeric=(level == "all"))
+            if level != "maps-and-cff":
+                _perturb_plain(f, rnd, stats)
+            out = corpus.save_bytes(f)
+            _save_tables(_load_model(out))
+        except Exception as e:
+            ctx.note("perturbation-level-rejected:%s:%s" % (level, type(e).__name__))
+            continue
+        if not stats:
+            return None, None
+        for k, v in stats.items():
+            ctx.note("perturbed:" + k, v)
+        return out, "perturbed (%s): %s" % (level, ", ".join("%s=%d" % kv for kv in sorted(stats.items())))
+    return None, None
+
+
 def _hostile_source(src, kind, rnd, ctx):
     """bytes of a font derived from `src` that carries hostile strings."""
     from fontTools.ttLib import TTFont
@@ -537,6 +749,8 @@ def _hostile_source(src, kind, rnd, ctx):
         return _hostile_glyphnames(src, rnd)
     if kind == "glyphclash":
         return _hostile_glyphnames(src, rnd, clash=True)
+    if kind == "perturb":
+        return _perturb(src, rnd, ctx)
     if kind == "ttprogram":
         return _hostile_ttprogram(src, rnd)
     f = TTFont(io.BytesIO(src), lazy=True, recalcBBoxes=False, recalcTimestamp=False)
